@@ -963,9 +963,38 @@ class Gen:
                 tx = tag_text(tg)
                 if tx is not None and r.random() < 0.7:
                     reg.append(tx)
+                elif tx:
+                    # a near miss of the payload's tag is registered instead: only the exact tag may reach a converter
+                    reg.append(r.choice(near_misses(tx)))
             reg.append(r.choice(["my.__Special__", "app.Thing", "Pyro5.core.URI", "ValueError"]))
             case["registry"] = sorted(set(reg))
         return case
+
+
+def near_misses(tag):
+    """tags that resemble the given one without being it (a converter registered for one must not serve the other)"""
+    last = tag.rpartition(".")[2]
+    first = tag.partition(".")[0]
+    out = [last, first, "os." + tag, "__main__." + tag, tag + ".X", tag.lower(), tag.upper(), tag[:-1], tag + " ", " " + tag, "." + tag, tag + ".",
+           tag.replace(".", "_"), tag.replace(".", ".."), last + "." + first]
+    return [t for t in out if t and t != tag]
+
+
+def near_miss_cases(I):
+    """a converter is registered for N; payloads carry tags that merely contain / end in / start with N"""
+    out = []
+    for ser in ("serpent", "marshal", "json", "msgpack"):
+        for registered, sent in (("Waypoint", "nav.Waypoint"), ("Waypoint", "__main__.Waypoint"), ("Waypoint", "os.__builtins__.Waypoint"),
+                                 ("nav.Waypoint", "Waypoint"), ("nav.Waypoint", "x.nav.Waypoint"), ("nav.Waypoint", "nav.Waypoint.x"),
+                                 ("nav.Waypoint", "nav.waypoint"), ("nav", "nav.Waypoint"), ("Waypoint", "Waypoint ")):
+            for path, slot in (("loads", None), ("call", "vargs")):
+                c = {"ser": ser, "path": path, "tree": L([D([("__class__", S(sent)), ("ident", ["i", 1])])]), "hostile": False, "registry": [registered]}
+                if slot:
+                    c["slot"] = slot
+                out.append(c)
+        for sent in (["b", list(b"evil.Waypoint")],):
+            out.append({"ser": ser, "path": "loads", "tree": L([D([("__class__", sent), ("ident", ["i", 1])])]), "hostile": False, "registry": ["Waypoint"]})
+    return out
 
 
 def history_cases(I):
@@ -1119,7 +1148,7 @@ def short_obs(obs):
 def all_cases(ctx):
     I = impl()
     g = Gen(ctx.rng, I)
-    cases = vlib.load_corpus(PROP) + targeted(I) + history_cases(I)
+    cases = vlib.load_corpus(PROP) + targeted(I) + history_cases(I) + near_miss_cases(I)
     n = ctx.n(2600, 12000)
     cases += [g.case() for _ in range(n)]
     return cases
